@@ -24,6 +24,9 @@ LEVEL = "other"
 
 
 def run(ctx):
+    if ctx.tier == "thorough":
+        from .witness import run_witness
+        run_witness(ctx, "C12")
     spec = json.load(open(os.path.join(VERIF, "spec", "limits.json")))
     ctx.explanation = ("Table agreement on evaluated field types from rustc's ADT table (local and cosey), cross-checked with the decoded types in the generated decoders, "
                        "against an independent limits table; plus who-may-alter rule: custom decoder wiring and hand-written Deserialize impls are exactly the documented sets.")
